@@ -18,7 +18,7 @@ PROP_RULE = ("a case is one (RANGE, STEP, stream operator, window block of 1-2 t
              "in-order stream over 4 subjects x 3 predicates x 3 objects, with/without stop()) run through the real engine "
              "once single-threaded and once per schedule seed multi-threaded; non-trivial when the window fired at least "
              "twice, at least one firing emitted rows, and at least one firing dropped a triple of the previous content "
-             "(eviction happened); distinct by the rendered case. Stream lagging_worker: 150-420 events, the window worker is held "
+             "(eviction happened); distinct by the rendered case. Stream lagging_worker: 340-480 events, the window worker is held "
              "back (hook hold_sites) from event 0 or from a third of the stream until everything was pushed.")
 
 E = "http://v/"
@@ -187,18 +187,19 @@ def gen_case(rng, nmax=14):
 
 def gen_lag_case(rng, nev):
     """a long stream (a firing at almost every event) for the lagging-worker schedule: from event `lag_from` on the
-    window worker is held back until the producer has pushed everything, so hundreds of firings queue up"""
+    window worker is held back until the producer has pushed every event, so several hundred firings (always more than
+    200, far beyond any small queue bound) queue up behind it"""
     w = rng.choice([1, 2, 3])
-    s = rng.choice([1, 1, 2])
+    s = rng.choice([1, 1, 1, 2])
     rules = [gen_rule(rng) for _ in range(rng.choice([0, 1]))]
     preds = [r["concl"][1][1] for r in rules] + PRED
     c = {"w": w, "s": s, "op": rng.choice("RRID"),
          "pats": [(("v", "a"), ("c", rng.choice(preds)) if rng.random() < 0.5 else ("v", "b"), ("v", "c"))],
          "rules": rules, "stream": rng.choice([None, "s1"]), "stop": rng.random() < 0.5,
-         "lag_from": rng.choice([0, 0, nev // 3])}
+         "lag_from": rng.choice([0, 0, nev // 4])}
     ts, evs = 0, []
     for _ in range(nev):
-        ts += rng.choice([1, 1, 1, 2])
+        ts += rng.choice([1, 1, 1, 2]) if s == 1 else 2          # a window closes at (almost) every event
         evs.append((rng.choice(ENT), rng.choice(PRED), rng.choice(OBJ), ts))
     c["evs"] = evs
     return c
@@ -248,30 +249,41 @@ def infra(msg):
 
 
 def run_impl_robust(ctx, binpath, dcs):
-    """ctx.run_impl with re-runs: a driver shard that was killed from outside (out-of-memory killer, timeout) is re-run
-    completely; when the driver itself crashed (abort, segfault) only the first unanswered case of the shard is the
-    culprit (reported as behaviour), the cases after it are re-run"""
-    KILL = (-9, 137, -15, 143, 124)
+    """ctx.run_impl with ONE re-run: a driver shard that was killed from outside (out-of-memory killer) is re-run once;
+    when the driver itself crashed (abort, segfault) only the first unanswered case of the shard is the culprit (reported
+    as behaviour), the cases after it are re-run.  A shard that ran into the framework's time limit is never re-run, and
+    a driver that reports a run blocked inside the engine ends the check: both are infrastructure errors (exit 2)."""
+    KILL = (-9, 137, -15, 143)
+    TIMEOUT = (124,)
     res = ctx.run_impl(binpath, dcs)
+
+    def died(r):
+        return isinstance(r, dict) and r.get("driver_died")
+    if any(died(r) and r.get("rc") in TIMEOUT for r in res):
+        infra("a driver shard ran into the time limit")
     confirmed = set()
-    for _ in range(4):
-        died = [i for i, r in enumerate(res) if isinstance(r, dict) and r.get("driver_died") and i not in confirmed]
-        if not died:
+    for attempt in range(2):
+        dead = [i for i, r in enumerate(res) if died(r) and i not in confirmed]
+        if not dead:
             break
         rerun = []
-        for i in died:
-            first_of_group = (i - 1) not in died
+        for i in dead:
+            first_of_group = (i - 1) not in dead
             if first_of_group and res[i].get("rc") not in KILL:
                 confirmed.add(i)
             else:
                 rerun.append(i)
-        if not rerun:
+        if not rerun or attempt == 1:
             break
         again = ctx.run_impl(binpath, [dcs[i] for i in rerun])
         for i, r in zip(rerun, again):
             res[i] = r
-    if any(isinstance(r, dict) and r.get("driver_died") and r.get("rc") in KILL for r in res):
-        infra("the driver process was killed from outside or timed out repeatedly (machine overloaded?)")
+    if any(died(r) and (r.get("rc") in KILL + TIMEOUT) for r in res):
+        infra("the driver process was killed from outside again after one re-run (machine overloaded?)")
+    blocked = [r for r in res if isinstance(r, dict) and r.get("blocked")]
+    if blocked:
+        infra("a run did not come back from the engine within its deadline (%s); the remaining cases of that driver process "
+              "were not run" % blocked[0].get("where"))
     return res
 
 
@@ -364,6 +376,8 @@ def evaluate(ctx, binpath, cases, stream, nseeds):
             if run.get("lag_from") is not None:
                 st["lag_runs"] = st.get("lag_runs", 0) + 1
                 st["max_queued_at_release"] = max(st.get("max_queued_at_release", 0), run.get("queued_at_release", 0))
+                st["min_queued_at_release"] = min(st.get("min_queued_at_release", 10 ** 9), run.get("queued_at_release", 0))
+                st["holds_released_by_watchdog"] = st.get("holds_released_by_watchdog", 0) + (1 if run.get("hold_released_by_watchdog") else 0)
             if run.get("timeout") and not run.get("worker_panicked"):
                 infra("quiescence of the window worker could not be established within the timeout (seed %s, case %r)" % (run["seed"], c))
             r_emits = [canon_impl_rows(r) for r in run["firings"]]
@@ -448,7 +462,7 @@ def run(ctx):
     evaluate(ctx, binpath, lng, "random_long", nseeds)
     # lagging worker: several hundred firings queue up behind a held worker, then are worked off; same sequence required
     nlag = 120 if ctx.thorough else 16
-    lag = [gen_lag_case(ctx.rng, ctx.rng.randint(150, 420)) for _ in range(nlag)]
+    lag = [gen_lag_case(ctx.rng, ctx.rng.randint(340, 480)) for _ in range(nlag)]
     ctx.sample({k: (v if k != "evs" else v[:6] + ["... %d events" % len(v)]) for k, v in lag[0].items()})
     evaluate(ctx, binpath, lag, "lagging_worker", 3 if ctx.thorough else 2)
     finish(ctx)
